@@ -1073,7 +1073,8 @@ Section Prov.
     avail_transfer c ri mi = (ro, mo) -> vals_ok ro /\ vals_ok mo.
   Proof.
     intros Hn Hri Hmi Hmo E. unfold avail_transfer in E. cbv zeta in E. inversion E; subst ro mo. clear E. split.
-    - apply rule_math_ok. apply rule_zero_reg_ok. apply rule_pull_ok; [|exact Hmo].
+    - unfold rm_remove_set. apply filter_ok.
+      apply rule_math_ok. apply rule_zero_reg_ok. apply rule_pull_ok; [|exact Hmo].
       apply rule_value_from_stack_ok; [|exact Hmi]. apply rule_expand_ok.
       repeat match goal with
              | |- vals_ok (if ?b then _ else _) => destruct b
